@@ -515,15 +515,35 @@ func (o *objectGoReflect) exportType() reflect.Type {
 
 func (o *objectGoReflect) equal(other objectImpl) bool {
 	if other, ok := other.(*objectGoReflect); ok {
-		k1, k2 := o.fieldsValue.Kind(), other.fieldsValue.Kind()
-		if k1 == k2 {
-			if isContainer(k1) {
-				return o.fieldsValue == other.fieldsValue
-			}
-			return o.fieldsValue.Interface() == other.fieldsValue.Interface()
-		}
+		return o.equalValue(other)
 	}
 	return false
+}
+
+// equalValue reports whether two wrappers wrap the same Go value: the same memory for
+// structs, arrays and slices, the same map for maps, equal values otherwise.
+func (o *objectGoReflect) equalValue(other *objectGoReflect) bool {
+	v1, v2 := o.fieldsValue, other.fieldsValue
+	k := v1.Kind()
+	if k != v2.Kind() {
+		return false
+	}
+	if isContainer(k) {
+		return v1 == v2
+	}
+	if v1.Type() != v2.Type() {
+		return false
+	}
+	if k == reflect.Map {
+		if v1.IsNil() || v2.IsNil() {
+			return v1 == v2
+		}
+		return v1.Pointer() == v2.Pointer()
+	}
+	if !v1.Type().Comparable() {
+		return false
+	}
+	return v1.Interface() == v2.Interface()
 }
 
 func (o *objectGoReflect) reflectValue() reflect.Value {
